@@ -3,8 +3,8 @@
     taurex/util/math.py:OnlineVariance.{reset, update, variance, combine_variance, parallelVariance}
     taurex/mpi.py:allgather                      (an exchange = pickling every element: `ser`)
     taurex/optimizer/optimizer.py:generate_profiles   (`sample_list[rank::size]`)
-    taurex/optimizer/optimizer.py:compute_derived_trace (`range(rank, n, size)`, allreduce of lists,
-                                                   re-ordering by matching sorted weights)
+    taurex/optimizer/optimizer.py:compute_derived_trace (`range(rank, n, size)`, allreduce of the trace
+                                                   and sample-index lists, `argsort` of the gathered indices)
   The Python operates element-wise on numpy arrays (profiles, spectra); the model is one element.
 
   Python objects that matter to the property:
@@ -184,7 +184,12 @@ def wmean (l : List (α × α)) : α := sumBy (fun p => p.2 * p.1) l / wsum l
 def twoPassVar (l : List (α × α)) : α :=
   sumBy (fun p => p.2 * ((p.1 - wmean l) * (p.1 - wmean l))) l / wsum l
 
+end
+
 /-! `compute_derived_trace`: restoring sample order after the rank-ordered gather -/
+
+section
+variable {α : Type} [LT α] [DecidableLT α] [OfNat α 0]
 
 /-- stable insertion of index `i` into an index list sorted by `key` -/
 def insertIdx (key : Nat → α) (i : Nat) : List Nat → List Nat
@@ -195,23 +200,38 @@ def insertIdx (key : Nat → α) (i : Nat) : List Nat → List Nat
 def argsort (keys : List α) : List Nat :=
   (List.range keys.length).foldl (fun acc i => insertIdx (fun k => keys.getD k 0) i acc) []
 
+/-- `a[idx]` (fancy indexing with an index array) -/
+def takeIdx {β : Type} (xs : List β) (idx : List Nat) : List β := idx.filterMap (fun i => xs[i]?)
+
 /-- `a[idx] = vals` -/
 def scatter {β : Type} (base : List β) (idx : List Nat) (vals : List β) : List β :=
   (idx.zip vals).foldl (fun b p => b.set p.1 p.2) base
 
-/-- the re-ordering in `compute_derived_trace`:
+/-- the re-ordering of the PINNED tree (before a42c6e3), kept as a regression model:
     `all_trace[weights.argsort()] = all_trace[all_weight.argsort()]` -/
-def restoreOrder {β : Type} (weights : List α) (gw : List α) (gt : List β) : List β :=
+def restoreOrderPinned {β : Type} (weights : List α) (gw : List α) (gt : List β) : List β :=
   let sw := argsort weights
   let gs := argsort gw
-  scatter gt sw (gs.filterMap (fun i => gt[i]?))
+  scatter gt sw (takeIdx gt gs)
 
-/-- the gathered `(trace, weight)` lists of `compute_derived_trace` on `size` ranks, then re-ordered -/
-def derivedTraceGather {β : Type} (size : Nat) (weights : List α) (trace : List β) : List β :=
+/-- pinned tree: gathered `(trace, weight)` lists on `size` ranks, re-ordered by matching sorted weights -/
+def derivedTraceGatherPinned {β : Type} (size : Nat) (weights : List α) (trace : List β) : List β :=
   let gt := gatherLists (partition size trace)
   let gw := gatherLists (partition size weights)
-  restoreOrder weights gw gt
+  restoreOrderPinned weights gw gt
 
 end
+
+/-- the re-ordering in `compute_derived_trace` (current code):
+    `restore = all_index.argsort(); all_trace = gathered[restore]` -/
+def restoreOrder {β : Type} (allIndex : List Nat) (gt : List β) : List β :=
+  takeIdx gt (argsort allIndex)
+
+/-- `compute_derived_trace` on `size` ranks: rank `r` evaluates the samples `range(r, n, size)`; the per-rank
+    index lists and traces are concatenated in rank order (`allreduce(…, SUM)`) and put back into sample order -/
+def derivedTraceGather {β : Type} (size : Nat) (trace : List β) : List β :=
+  let allIndex := gatherLists (partition size (List.range trace.length))
+  let gt := gatherLists (partition size trace)
+  restoreOrder allIndex gt
 
 end Taurex.Variance
